@@ -19,6 +19,7 @@ SPEC = {
             "whitebox/*.primitives: operands of ladderStep/diffAdd/double/mulA24 drawn by vlib.FieldOperand (limb edges, near-modulus, unreduced) or product-structured (ref/prodgen: the double-width product is chosen first, "
             "upper limbs at floor(m*2^64/38) and neighbours / all-ones / zero, factors found by integer square root or division, or x = 2^a +- 2^b +- small); non-trivial = at least one operand is not uniform. "
             "whitebox/fp*.products: (x, y) product-structured for Mul/Sqr of math/fp25519 and math/fp448 on the three back-ends; every case is non-trivial. "
+            "shared/*, whitebox/*: a further value class sits next to a limb boundary, a power of two or a multiple of p (ref/prodgen.Boundary). "
             "shared/* also draws peer values built so that the result is tiny (two representatives below the output width: < 19 resp. < 2^224+1) and the scalars j*l+-1 whose public key is the base point. "
             "consequence/X-Wing: the decapsulated / encapsulated values are compared with an independent X-Wing reference for every u. "
             "whitebox/*.toAffine and whitebox/fp*.canonical: final reduction on values with two representatives (non-trivial = tiny value). "
